@@ -60,8 +60,11 @@ def gen_case(rng, sim, nmax=12, buggify=None, horizon=None, allow_rho=True, dire
         c = contagion.gen_simple_case(rng, nmax=min(nmax, 8))
         case.update({k: c[k] for k in ("graph", "statuses", "spont", "induced", "IC", "ret", "ic_type", "template")})
     elif sim == "Gillespie_complex_contagion":
-        c = contagion.gen_complex_case(rng)
-        case.update({k: c[k] for k in ("graph", "model", "params", "IC", "ret")})
+        # (the `lazy` model, whose chooser may answer the current status, belongs to C15 only: an
+        # event that changes nothing is at odds with C04's "exactly one node makes one move" wording,
+        # and which of the two a chooser may do is not stated anywhere)
+        c = contagion.gen_complex_case(rng, model=rng.choice([m for m in contagion.COMPLEX_MODELS if m != "lazy"]))
+        case.update({k: c[k] for k in ("graph", "model", "params", "IC", "ret", "infl_kind")})
     else:
         spec = cases.gen_graph(rng, 1, nmax, directed=bool(directed), label=label, edge_w=ew, node_w=nw,
                                selfloops=selfloops)
@@ -94,9 +97,9 @@ def gen_case(rng, sim, nmax=12, buggify=None, horizon=None, allow_rho=True, dire
         case["xargs"] = rng.random() < 0.5
         case["recovery_rule"] = (sim == "discrete_SIR" and rng.random() < 0.4)
         case["det_rule"] = (sim == "discrete_SIR" and rng.random() < 0.6)
-    tmin = rng.choice([0, 0, 5, -2.5])
+    tmin = rng.choice([0, 0, 5, -2.5, 1000.0, -0.75])
     if time == "disc":
-        tmin = rng.choice([0, 0, 5, -3])
+        tmin = rng.choice([0, 0, 5, -3, 1000])
     case["tmin"] = tmin
     h = horizon or rng.choice(["default", "default", "inf", "finite", "finite", "at_tmin", "below_tmin"])
     if h == "default":
